@@ -27,9 +27,6 @@ GEN_DOT = "# Generator: https://github.com/mar10/nutree/"
 GEN_MM = "%% Generator: https://github.com/mar10/nutree/"
 NS = "http://wwwendt.de/namespace/nutree/rdf/0.1/"
 
-KF_UNLABELLED = "KF-C17-dot-self-unlabelled"
-KF_REDECLARED = "KF-C17-dot-self-redeclared"
-KF_RDF_FALSY = "KF-C17-rdf-falsy-parent"
 
 
 class ParseError(Exception):
@@ -288,7 +285,7 @@ def brief(c):
     return {k: v for k, v in c.items() if k != "spec"}
 
 
-def judge(out, c, obs, resp, start_key):
+def judge(out, c, obs, resp):
     """Oracle (specification evaluated on the implementation's output) and correspondence."""
     if "fail" in resp:
         raise core.MachineryError(f"driver: {resp}")
@@ -299,37 +296,21 @@ def judge(out, c, obs, resp, start_key):
         return
     if fmt == "rdf":
         it, st, mt = tsort(obs["triples"]), tsort(spec["triples"]), tsort(model["triples"])
-        new = False
         if it != st:
             missing = [json.loads(x) for x in st if x not in set(it)]
             extra = [json.loads(x) for x in it if x not in set(st)]
-            kw = {}
-            falsy_edges = [t for t in map(json.loads, st) if t[0] == "has_child" and t[1] in (0, "")]
-            if not extra and missing and tsort(missing) == tsort(falsy_edges):
-                # every has_child statement of a parent with a falsy data_id is missing, nothing else
-                kw["finding"] = KF_RDF_FALSY
-            else:
-                new = True
-            out.fail(c, f"rdf export {brief(c)}: statements missing {missing}, unexpected {extra}", impl=it, spec=st, model=mt, **kw)
-        if not new and it != mt:
+            out.fail(c, f"rdf export {brief(c)}: statements missing {missing}, unexpected {extra}", impl=it, spec=st, model=mt)
+        elif it != mt:
             out.disagree(c, f"rdf export {brief(c)}: impl {it} != model {mt}")
         return
     exp_edges = [[p, ch, k] for p, ch, k, _ in spec["edges"]]
     if fmt == "dot":
         exp_nodes = [[k, nm] for k, nm in spec["nodes"]]
-        ok_nodes = obs["nodes"] == exp_nodes
-        kw = {}
-        if not ok_nodes and c["addSelf"] and c["path"] and obs["nodes"] and obs["nodes"][0] == [start_key, None]:
-            # known pattern: the start node is declared first without a label and is not entered into used_keys
-            rest = obs["nodes"][1:]
-            again = [x for x in rest if x[0] == start_key]
-            if [x for x in rest if x[0] != start_key] == exp_nodes[1:] and len(again) <= 1 and (not again or (c["unique"] and again[0][1] is not None)):
-                kw["finding"] = KF_REDECLARED if again else KF_UNLABELLED
         new = False
-        if not ok_nodes:
+        if obs["nodes"] != exp_nodes:
             out.fail(c, f"dot export {brief(c)} declares {obs['nodes']}, one labelled node per key expected: {exp_nodes}",
-                     impl=obs, spec=spec, model=model, **kw)
-            new = not kw
+                     impl=obs, spec=spec, model=model)
+            new = True
         if obs["edges"] != exp_edges:
             out.fail(c, f"dot export {brief(c)} has edges {obs['edges']}, tree edges: {exp_edges}", impl=obs, spec=spec, model=model)
             new = True
@@ -395,8 +376,7 @@ def do_tree(ctx, out, spec, typed, rot, tag):
             c = case_of(spec, typed, path, fmt, unique, add_self, next(rot))
             obs = observe(ctx, tree, ser, keys, c)
             reqs.append(request(tj, c))
-            start_key = (canon_did(ctx.pool, node.data_id) if path else "__root__") if unique else ser.of(node)
-            pend.append((c, obs, start_key))
+            pend.append((c, obs))
             out.count((tag, typed, repr(spec), path, fmt, unique, add_self), nontriv)
             out.dist[f"{fmt}:{'unique' if unique else 'per-node'}:{'self' if add_self else 'noself'}"] += 1
             out.dist["api:" + ("tree" if not path else "node")] += 1
@@ -409,10 +389,10 @@ def do_tree(ctx, out, spec, typed, rot, tag):
         if clone:
             out.dist["start in tree with clones"] += 1
     resps = ctx.driver.ask_many(reqs)
-    for (c, obs, sk), resp in zip(pend, resps):
-        judge(out, c, obs, resp, sk)
+    for (c, obs), resp in zip(pend, resps):
+        judge(out, c, obs, resp)
     if size >= 4 and clone and pend:
-        c, obs, _ = max(pend, key=lambda q: len(q[1].get("edges", q[1].get("triples", []))) if "parse_error" not in q[1] else -1)
+        c, obs = max(pend, key=lambda q: len(q[1].get("edges", q[1].get("triples", []))) if "parse_error" not in q[1] else -1)
         out.sample(dict(case=brief(c), tree=spec, observed=obs), every=1)
     out.dist["trees" + ("_typed" if typed else "")] += 1
 
@@ -489,8 +469,7 @@ def replay(ctx, rp):
     node = adapter.node_at(tree, path)
     obs = observe(ctx, tree, ser, keys, c)
     resp = ctx.driver.ask(request(tj, c))
-    start_key = (canon_did(ctx.pool, node.data_id) if path else "__root__") if c["unique"] else ser.of(node)
-    judge(out, c, obs, resp, start_key)
+    judge(out, c, obs, resp)
     try:
         raw = call_impl(tree, node, path, c["fmt"], c["unique"], c["addSelf"], c["variant"])
         text = raw if isinstance(raw, list) else sorted(map(str, raw))
@@ -498,7 +477,7 @@ def replay(ctx, rp):
         text = f"{type(e).__name__}: {e}"
     return dict(
         implementation=obs, implementation_output=text, model=resp.get("model"), specification=resp.get("spec"),
-        failures=[f["what"] for f in out.oracle_failures], findings=sorted({f.get("finding") for f in out.oracle_failures if f.get("finding")}),
+        failures=[f["what"] for f in out.oracle_failures],
         disagreements=[d["what"] for d in out.disagreements],
         property_holds=not out.oracle_failures,
     )
